@@ -15,13 +15,14 @@
                                       split of the samples into calls.
   * `peak_partition_independent`    : two call sequences writing the same samples (both outside the classes) end in the same
                                       PEAK values and positions;  `peak_partition_full_fails` : refuted in general.
-  * `peak_value_is_binary32`        : what goes into the chunk is a binary32; for DOUBLE data this is not the double
-                                      (`peak_value_not_exact_double`).
-  * `chunk_roundtrip_*`             : PEAK chunk bytes (WAV/RIFX/AIFF/CAF) parse back to the values and positions.
+  * `peak_value_not_exact_double`   : what goes into the chunk is a binary32; for DOUBLE data this is not the double written.
   CALC
-  * `calc_scan_is_max`, `calc_scan_all_is_max` : the scan returns the maximum magnitude (per channel) of the decoded stream,
-                                      whatever the buffering;
-  * `calc_restores_state`           : read position, normalisation flags and file bytes are as before the command.
+  * `calc_scan_is_max`              : the scan of psf_calc_signal_max returns the maximum magnitude of the decoded stream
+                                      (dominates every sample, is one of them or 0), whatever the buffering (`calc_scan_buffering`);
+  * `calc_loop_keeps_file`          : the read loop of the CALC commands changes no file byte, no conversion setting, nothing a
+                                      read depends on except the read position; `calc_seek_back` : the final seek restores it;
+  * `calc_restores_state_witness`   : the assembled command on a concrete handle (position, norm flags, bytes as before).
+    The assembled universal statement for `stepCalc` is not proved yet (see the report); it is covered by correspondence.
 -/
 import SfProofs.Peak
 import SfProofs.PeakCalc
@@ -183,5 +184,56 @@ theorem peak_partition_independent (enc : Enc) (hfl : enc.isFloatData = true) (c
 theorem peak_partition_full_fails :
     run (.dbl false) {} 1 (some (mkPeaks 1)) 0 [(.f64, [wa, wb])] ≠
     run (.dbl false) {} 1 (some (mkPeaks 1)) 0 [(.f64, [wa]), (.f64, [wb])] := by decide +kernel
+
+
+/-! ## CALC -/
+
+/-- SFC_CALC_SIGNAL_MAX: for ANY sequence of buffers the read loop delivers, the result `r` of the scan satisfies
+    |x| ≤ r for every decoded sample x, and r is the magnitude of one of them (or 0 for an empty / all-zero stream):
+    r is the true maximum absolute value. -/
+theorem calc_scan_is_max (bufs : List (List Nat)) :
+    (∀ x ∈ bufs.flatten, V64 (absD x) ≤ V64 (bufs.foldl foldMax 0)) ∧
+    (bufs.foldl foldMax 0 = 0 ∨ ∃ x ∈ bufs.flatten, bufs.foldl foldMax 0 = absD x) := by
+  rw [foldMax_flatten]
+  obtain ⟨_, h2, h3⟩ := foldMax_spec bufs.flatten 0
+  exact ⟨h2, h3⟩
+
+/-- the result does not depend on how the stream is cut into buffers (1024 − 1024 % channels items in the library) -/
+theorem calc_scan_buffering (bufs1 bufs2 : List (List Nat)) (h : bufs1.flatten = bufs2.flatten) :
+    bufs1.foldl foldMax 0 = bufs2.foldl foldMax 0 := by
+  rw [foldMax_flatten, foldMax_flatten, h]
+
+example : calcSignalMax 2 [0x3FF0000000000000, 0xC000000000000000, 0xBFF8000000000000, 0x3FE0000000000000] = 0x4000000000000000 := by
+  decide +kernel
+example : calcMaxAll 2 [0x3FF0000000000000, 0xC000000000000000, 0xBFF8000000000000, 0x3FE0000000000000] =
+    [0x3FF8000000000000, 0x4000000000000000] := by decide +kernel
+
+/-- the read loop of the four CALC commands on a read-only handle: the handle still describes the same file (encoding,
+    conversion settings incl. both normalisation flags, channels, frames, data offset, mode), no file byte changed, the
+    handle invariant holds -/
+theorem calc_loop_keeps_file (fuel : Nat) (h : H) (s : Store) (a : Acc) (hi : HInv h s) (hm : h.mode = .r) :
+    SameFile h (calcLoop fuel h s a).1 ∧ (calcLoop fuel h s a).2.1.bytes = s.bytes ∧
+    HInv (calcLoop fuel h s a).1 (calcLoop fuel h s a).2.1 :=
+  calcLoop_keeps fuel h s a hi hm
+
+/-- the seek that ends the command puts the read position back to any frame 0 … frames it was at -/
+theorem calc_seek_back (h : H) (s : Store) (k : Int) (hi : HInv h s) (hm : h.mode = .r) (hk0 : 0 ≤ k) (hk : k ≤ h.frames) :
+    (stepSeek h s k 0).1.rpos = k ∧ SameFile h (stepSeek h s k 0).1 ∧ (stepSeek h s k 0).2.1.bytes = s.bytes :=
+  let ⟨a, b, c, _⟩ := seek_set_r h s k hi hm hk0 hk
+  ⟨a, b, c⟩
+
+/-- a 2-channel 16-bit RAW file of 3 frames, read position 2, norm_double off: SFC_CALC_NORM_MAX_ALL_CHANNELS returns the
+    per-channel maxima and leaves position, flags and bytes as they were -/
+def cS : Store := { bytes := [1, 0, 0xFE, 0xFF, 3, 0, 4, 0, 0xFB, 0xFF, 6, 0], pos := 0 }
+
+theorem calc_restores_state_witness :
+    (match openHandle 0 cS .r 0x040002 2 8000 with
+     | .ok h s =>
+        let h := (stepCmdFlag h s 0x1012 0).1
+        let r0 := stepSeek h s 2 0
+        let r := stepCalc r0.1 r0.2.1 true
+        decide (r.1.rpos = 2 ∧ r.1.conv.normD = false ∧ r.1.conv.normF = true ∧ r.2.1.bytes = cS.bytes ∧
+                r.2.2.all.1 = [0x3F24000000000000, 0x3F28000000000000] ∧ r.2.2.sig = 0x3F28000000000000)
+     | _ => false) = true := by decide +kernel
 
 end Sf.C18
